@@ -31,7 +31,7 @@ def generate(seed, tier):
     for i in range(n_cases):
         rng = derived_rng(seed, 'C02', i)
         while True:
-            ds = gen.gen_dataset(rng, max_dims=3, max_size=4, dtypes=('f8', 'f4', 'c16'))
+            ds = gen.gen_dataset(rng, max_dims=3, max_size=4, dtypes=('f8', 'f4', 'c16'), long_prob=0.12)
             if gen.n_points(ds['pos']) * gen.n_points(ds['spec']) <= 400:
                 break
         # dimensions are supplied in the order the caller declares (fastest first unless s2f)
